@@ -15,26 +15,35 @@ REGISTRY: dict[str, dict[str, Any]] = {}
 
 
 class _Delegating(Component):
-    def __init__(self, verif_path: str = "", **kwargs: Any) -> None:
-        self._verif_path = verif_path
-        REGISTRY[verif_path]["ctor"](self, **kwargs)
+    ep_name = ""
+
+    def __init__(self, verif_path: str | None = None, **kwargs: Any) -> None:
+        # without a verif_path (type derived from the alias, configuration None) the registry is keyed by entry point
+        self._verif_path = verif_path if verif_path is not None else f"__alias__:{self.ep_name}"
+        REGISTRY[self._verif_path]["ctor"](self, **kwargs)
 
 
 class VFNone(_Delegating):
-    pass
+    ep_name = "vf_none"
 
 
 class VFPrepare(_Delegating):
+    ep_name = "vf_prepare"
+
     async def prepare(self) -> None:
         await REGISTRY[self._verif_path]["prepare"](self)
 
 
 class VFStart(_Delegating):
+    ep_name = "vf_start"
+
     async def start(self) -> None:
         await REGISTRY[self._verif_path]["start"](self)
 
 
 class VFBoth(_Delegating):
+    ep_name = "vf_both"
+
     async def prepare(self) -> None:
         await REGISTRY[self._verif_path]["prepare"](self)
 
